@@ -553,7 +553,13 @@ func (c *DefaultCtx) Format(handlers ...ResFmt) error {
 	c.Vary(HeaderAccept)
 
 	if c.Get(HeaderAccept) == "" {
-		c.Response().Header.SetContentType(removeNewLines(handlers[0].MediaType))
+		// without the header the first offer is used; "default" is the fallback, not an offer
+		for _, h := range handlers {
+			if h.MediaType != "default" {
+				c.Response().Header.SetContentType(removeNewLines(h.MediaType))
+				return h.Handler(c)
+			}
+		}
 		return handlers[0].Handler(c)
 	}
 
